@@ -262,9 +262,7 @@ def _switch(sw, ctx, env):
             if t.kind == "int":
                 if not (v.isdigit() and v.isascii()):
                     raise Invalid("W15", f"case value {v!r} is not an integer")
-                if len(v) > 1 and v[0] == "0":
-                    raise Unspec("case value with leading zero")
-                val = int(v)
+                val = int(v)  # leading zeros are still decimal digits
             else:
                 named = dict(env.enum_values(t.name))
                 try:
